@@ -14,6 +14,7 @@ import (
 	"context"
 	"errors"
 	"fmt"
+	"os"
 	"sort"
 	"sync"
 	"testing"
@@ -378,9 +379,20 @@ func TestVerifC05(t *testing.T) {
 	if thorough {
 		n = 60000
 	}
+	if os.Getenv("VERIF_C05_ONLY") == "worker" {
+		n = 0
+	}
 	for i := 0; i < n; i++ {
 		size := 8 + r.Intn(40)
 		c05Bubble(t, func() { c05LimRandom(out, r, size) })
+	}
+	nw := 700
+	if thorough {
+		nw = 20000
+	}
+	for i := 0; i < nw; i++ {
+		size := 5 + r.Intn(30)
+		c05Bubble(t, func() { c05WRandom(out, r, size) })
 	}
 }
 
